@@ -459,7 +459,7 @@ def g_idtrap(rng, nmax=6):
     return "\n".join(lines)
 
 
-def g_union(rng, nmax=6):
+def g_union(rng, nmax=6, nested=False):
     """Two (or three) independent modules side by side - several source SCCs, each with its own nested
     trap spaces - optionally feeding a common downstream variable."""
     parts = []
@@ -479,6 +479,20 @@ def g_union(rng, nmax=6):
         left -= m
     text = "\n".join(parts)
     names = [l.split(",")[0].strip() for l in text.split("\n")]
+    if nested:
+        # a downstream variable per module that sustains itself once the module has switched it on/off: the
+        # block of its stable motif strictly contains the block(s) of the module; its name sorts before or
+        # after the module's names, so nested blocks are listed in different orders
+        for pre in sorted({nm[0] for nm in names}):
+            if left < 1 or rng.random() < 0.25:
+                continue
+            mod = [nm for nm in names if nm[0] == pre]
+            d = (chr(ord(pre) - 15) + "d") if rng.random() < 0.5 else (pre + "z")   # 'a'..'c' + d  <  p,q,r  <  pz
+            src = rng.choice(mod)
+            form = rng.choice(["{d} | {s}", "{d} | {s}", "{d} & {s}", "{d} | !{s}", "{d} | ({s} & {t})"])
+            text += "\n" + f"{d}, " + form.format(d=d, s=src, t=rng.choice(mod))
+            left -= 1
+        names = [l.split(",")[0].strip() for l in text.split("\n")]
     if left >= 1 and rng.random() < 0.5:
         text += f"\nz, {rand_expr(rng, rng.sample(names, min(len(names), 3)), 2)}"
     return text
